@@ -93,9 +93,15 @@ class MachineryError(RuntimeError):
 
 # ---- known findings ----------------------------------------------------------------------
 def load_findings():
-    if not os.path.exists(FINDINGS_FILE):
-        return []
-    return json.load(open(FINDINGS_FILE)).get("findings", [])
+    """known_findings.json plus (while families are developed separately) known_findings.d/*.json"""
+    out = []
+    files = [FINDINGS_FILE] if os.path.exists(FINDINGS_FILE) else []
+    d = os.path.join(VERIF, "known_findings.d")
+    if os.path.isdir(d):
+        files += [os.path.join(d, f) for f in sorted(os.listdir(d)) if f.endswith(".json")]
+    for f in files:
+        out += json.load(open(f)).get("findings", [])
+    return out
 
 
 def finish(ctx, level="model_checking"):
